@@ -1435,7 +1435,7 @@ impl<'a> Gen<'a> {
         let np = 1 + self.rng.below(4);
         // known finding: destructuring (nested) parameters of inline functions are mis-resolved
         // ("Lookup for argument N that wasn't passed", wrong paths, unbounded recursion)
-        let nested_ok = !(inline && self.cfg.avoid_known);
+        let nested_ok = !(inline && self.cfg.avoid_known) || self.cfg.classic_ints; // (classic inline destructuring works)
         // known finding (classic): an inline function is a macro there; arguments collected by a
         // dotted tail parameter are spliced as a *form* and then compiled as a call
         self.suppress_tail = inline && self.cfg.classic_ints && self.cfg.avoid_known;
@@ -1454,6 +1454,28 @@ impl<'a> Gen<'a> {
         // inline bodies are kept small: inline expansion multiplies code size at every use
         self.in_fun_body = true;
         self.in_inline_body = inline;
+        if inline && self.rng.chance(1, 3) {
+            // an inline whose body is a call of another helper / a constant: reachability through
+            // nested inlines and macros
+            let pre: Option<Expr> = if self.rng.chance(1, 2) {
+                self.gen_call(ret, 2, &scope)
+            } else {
+                let cs = self.vars_of(&vec![], ret);
+                if cs.is_empty() { None } else { Some(Expr::Var(self.rng.pick(&cs).clone())) }
+            };
+            if let Some(e) = pre {
+                let use_param = scope.iter().find(|(_, t)| *t == Ty::Int).map(|(n, _)| n.clone());
+                let body = match (ret, use_param) {
+                    (Ty::Int, Some(pn)) => Expr::Prim("+", vec![e, Expr::Var(pn)]),
+                    _ => e,
+                };
+                self.in_fun_body = false;
+                self.in_inline_body = false;
+                self.cfg.allow_let = was_let;
+                self.cfg.allow_lambda = was_lambda;
+                return Fun { name, inline, params, body, ret, recursive: false };
+            }
+        }
         let body = self.gen_expr(ret, if inline { 2 } else { self.cfg.max_depth.saturating_sub(1) }, &scope);
         self.in_fun_body = false;
         self.in_inline_body = false;
